@@ -12,7 +12,7 @@ import (
 
 func init() {
 	register(&Property{
-		ID: "C04",
+		ID:          "C04",
 		Explanation: "Units and formula agreement of tape positions, decided from the source without evaluating any number: (units) every argument, field store and result that carries a position is classified by provenance - record axis (fields Record/Lastknownrecord, parameters so named, quotients by RecordSize, the --record flag, the drive's current record), block axis (fields Block/Lastknownblock, parameters, `n - record*RecordSize` remainders, the --block flag), and content vs last-known vs current - and must match the class of the slot it flows into at every call of the converters, indexHeader, the persister's Delete/Move, recovery.Index/Fetch/Query and SeekToRecordOnTape; the metadata-only update keeps the old content position; Restore fetches at the content position; GetLastIndexedRecordAndBlock returns the last-known pair; (seek-formula) every byte-offset expression in pkg/recovery that multiplies by the block size normalises (polynomial normalisation, purely syntactic) to 512*(RecordSize*record + block) or one of its three legitimate parts, and every re-derivation after a member is record = n / RecordSize, block = n - record*RecordSize with the same n; (advance-per-member) between two uses of (record, block) for a header both are re-assigned.",
 		NotDecided:  "That the numbers are right for a given tape (512-rounding, records spanning boundaries, batched members), that Fetch at a position returns the current content, the off-by-one in the `block > RecordSize` correction.",
 		Assumptions: []string{"parameter and field names record/block/lastknown* denote what they say (they are the repository's own vocabulary for the two axes)"},
@@ -721,7 +721,6 @@ func ruleC04Advance(c *Ctx) {
 		}
 	}
 }
-
 
 // ruleC04Paired: record and block always travel as a pair from one origin - at calls with a (record, block) slot
 // pair and at field stores.
